@@ -502,6 +502,7 @@ func (p *C16) Check(sc *scen.Scenario, run *orch.Run, env *orch.Env) []orch.Viol
 				continue
 			}
 			var inst time.Time
+			var moreInst []time.Time
 			entry := op.Entry
 			if op.Op == "bridge_print" {
 				entry = "log.Logger(bridge)." + map[string]string{"": "Print", "println": "Println", "printf": "Printf"}[op.Kind]
@@ -513,16 +514,26 @@ func (p *C16) Check(sc *scen.Scenario, run *orch.Run, env *orch.Env) []orch.Viol
 				}
 				inst = time.Unix(op.T.S, op.T.Ns).In(c16Zone(op.T.Zone))
 			} else {
-				if len(o.Clocks) != 1 {
-					// the record's own instant is the single clock read of the call
-					out = append(out, orch.Violation{Rule: "C16.clockreads", Witness: "n", Detail: fmt.Sprintf("%s read the clock %d times", op.Entry, len(o.Clocks))})
+				// the record's own instant is a clock read of the call (exactly one on the pinned tree; an
+				// implementation that reads the clock again for something else is not wrong, so any of
+				// the reads may be the one that is printed)
+				if len(o.Clocks) == 0 {
+					// the call did not go through the clock seam: nothing can be decided (harness trouble, not a verdict)
+					out = append(out, orch.Violation{Rule: "HARNESS.clock", Witness: "unobserved", Detail: fmt.Sprintf("%s printed a timestamp without reading the simulated clock", entry)})
 					continue
 				}
-				var sec int64
-				if _, err := fmt.Sscanf(o.Clocks[0].S, "%d", &sec); err != nil {
-					continue
+				for _, c := range o.Clocks {
+					var sec int64
+					if _, err := fmt.Sscanf(c.S, "%d", &sec); err != nil {
+						continue
+					}
+					t := time.Unix(sec, int64(c.N)).In(c16Zone(sc.World.Clock.Zone))
+					if inst.IsZero() {
+						inst = t
+					} else {
+						moreInst = append(moreInst, t)
+					}
 				}
-				inst = time.Unix(sec, int64(o.Clocks[0].N)).In(c16Zone(sc.World.Clock.Zone))
 			}
 			text, ok := timeText(o.Writes[0].P)
 			if !ok {
@@ -550,6 +561,14 @@ func (p *C16) Check(sc *scen.Scenario, run *orch.Run, env *orch.Env) []orch.Viol
 				wants = append(wants, w)
 				if w == text {
 					match = true
+				}
+				for _, t := range moreInst {
+					if wantUTC {
+						t = t.UTC()
+					}
+					if t.Format(c) == text {
+						match = true
+					}
 				}
 			}
 			if !match {
